@@ -232,7 +232,11 @@ func (o *oracle) history(what string, acc []P, rp any, stale ...bool) {
 			if acc[i] != acc[j] {
 				continue
 			}
-			if j < len(stale) && stale[j] {
+			viaStale := false
+			for k := i + 1; k <= j && k < len(stale); k++ {
+				viaStale = viaStale || stale[k]
+			}
+			if viaStale {
 				o.res.Fail(classStale, fmt.Sprintf("%s: position %v taken at update %d and again at update %d, when an accepted suffrage-confirm INIT voteproof left an older ACCEPT voteproof as the cap; accepted updates %v", what, acc[j], i, j, acc), rp)
 				return
 			}
